@@ -156,6 +156,7 @@ theorem step_inv (s : VS) (op : Op) (h : Inv s) : Inv (s.step op) := by
     · simp only [hij, ↓reduceIte]; exact h
   | clear i => exact inv_of_eq h (clear_next s i) (fun id => clear_occ s i id)
   | surrender i => exact inv_of_eq h (surrender_next s i) (fun id => surrender_occ s i id)
+  | readopt i => exact h
   | swap i j =>
     simp only [VS.step]
     unfold VS.swap
